@@ -59,6 +59,11 @@ func (h *OperationHandler) PrepareTxnFiles(ops []*operation.QueuedOperation) (*p
 		return nil, err
 	}
 
+	if parsedOps.Size() == 0 {
+		// all queued operations have expired: there is nothing to anchor (no files, no anchor string)
+		return &protocol.AnchoringInfo{ExpiredOperations: info.ExpiredOperations}, nil
+	}
+
 	var artifacts []*protocol.AnchorDocument
 
 	// special case: if all ops are deactivate don't create chunk and provisional files
